@@ -1,3 +1,515 @@
-From Coq Require Import ZArith List.
-From PV Require Import Base.U64 C19.C19_Model.
+(* C19_Proofs.v — every transition of the ObjectCache model preserves the invariant; consequences. *)
+From Coq Require Import ZArith List Bool Arith Lia.
+From PV Require Import Base.U64 C19.C19_Model C19.C19_Lib C19.C19_Inv C19.C19_Gen.
+Import ListNotations.
+Local Open Scope Z_scope.
+
 Lemma placeholder : True. Proof. exact I. Qed.
+
+Lemma with_item_ok s i f it : nth_error (s_items s) i = Some it -> i_live it = true -> with_item s i f = f it.
+Proof. intros H L. unfold with_item. rewrite H, L. reflexivity. Qed.
+
+Lemma upd_id {A} (l : list A) n x : nth_error l n = Some x -> upd l n x = l.
+Proof. revert n; induction l; destruct n; simpl; intros H; try discriminate; auto. - inversion H; auto. - f_equal; auto. Qed.
+
+Lemma holder_pc s t th i : Inv s -> nth_error (s_thr s) t = Some th -> pc_holds (t_pc th) i = 1%nat ->
+  exists it, nth_error (s_items s) i = Some it /\ i_live it = true /\ In i (s_set s) /\ 0 < i_ref it.
+Proof. intros I Ht H. apply (thr_holds_pos s t th i I Ht). unfold holds. lia. Qed.
+
+Lemma delete_item_fields s t i it :
+  s_items (delete_item s t i it) = upd (s_items s) i (it_dead it) /\ s_set (delete_item s t i it) = s_set s /\
+  s_list (delete_item s t i it) = s_list s /\ s_thr (delete_item s t i it) = s_thr s /\ s_bad (delete_item s t i it) = s_bad s.
+Proof. unfold delete_item. destruct (i_obj it); simpl; auto. Qed.
+
+(* frame steps: the proof obligations that are the same every time *)
+Ltac fr I Ht Hpc th' :=
+  eapply (frame _ _ _ _ th' I Ht);
+  [ try reflexivity
+  | intros; unfold holds, handles_on; rewrite ?Hpc; simpl; try reflexivity; try lia
+  | intros; rewrite ?Hpc; simpl; try reflexivity
+  | intros; rewrite ?Hpc; simpl; try reflexivity
+  | let Hq := fresh in intros ? ? Hq; simpl in Hq; try discriminate Hq
+  | try apply items_eqv_refl
+  | try reflexivity
+  | simpl; try (intros; assumption)
+  | simpl; try apply I
+  | try reflexivity ].
+
+Lemma step_PIdle s t th r : Inv s -> nth_error (s_thr s) t = Some th -> t_pc th = PIdle ->
+  step s t = Some r -> Inv (r_st r).
+Proof.
+  intros I Ht Hpc E. unfold step, get_thr in E. rewrite Ht, Hpc in E.
+  destruct (t_prog th) as [|o rest]; [discriminate|].
+  destruct o as [k ok y cd|h rc ds| | |d].
+  - inversion E; subst; simpl. fr I Ht Hpc (mkThr (PAcqFind k ok y cd) rest (t_idx th) (t_h th)).
+  - destruct (nth_error (t_h th) h) as [[[i|] [|]]|] eqn:Eh; inversion E; subst; simpl.
+    + fr I Ht Hpc (mkThr PIdle rest (S (t_idx th)) (t_h th)).
+    + fr I Ht Hpc (mkThr (PRel1 i rc ds false) rest (t_idx th) (upd (t_h th) h (Some i, true))).
+      rewrite Nat.add_0_r. exact (handles_upd_release (t_h th) h i i0 Eh).
+    + fr I Ht Hpc (mkThr PIdle rest (S (t_idx th)) (t_h th)).
+    + fr I Ht Hpc (mkThr PIdle rest (S (t_idx th)) (t_h th)).
+    + fr I Ht Hpc (mkThr PIdle rest (S (t_idx th)) (t_h th)).
+  - inversion E; subst; simpl. fr I Ht Hpc (mkThr (PExp KExp) rest (t_idx th) (t_h th)).
+  - inversion E; subst; simpl. fr I Ht Hpc (mkThr PIdle rest (S (t_idx th)) (t_h th)).
+  - inversion E; subst; simpl. fr I Ht Hpc (mkThr PIdle rest (S (t_idx th)) (t_h th)).
+Qed.
+
+Ltac ieqv Hi := simpl; apply (items_eqv_upd _ _ _ _ Hi); unfold item_eqv; simpl; repeat split; auto.
+
+Lemma step_mutex s t th r : Inv s -> nth_error (s_thr s) t = Some th ->
+  match t_pc th with
+  | PAcqParked _ _ _ _ | PAcqLock _ _ _ _ _ | PAcqSlow _ _ _ _ | PAcqSleepM _ _ _ _ | PAcqCheck _ _ _ _
+  | PAcqCtor _ _ _ | PAcqUnlock _ | PAcqRead _ => True | _ => False end ->
+  step s t = Some r -> Inv (r_st r).
+Proof.
+  intros I Ht P E. unfold step, get_thr in E. rewrite Ht in E.
+  destruct (t_pc th) eqn:Hpc; try contradiction.
+  - (* PAcqParked *) destruct (mem_id t (s_blockq s)); [discriminate|]. inversion E; subst; simpl.
+    fr I Ht Hpc (th_pc th (PAcqFind k ok y cd)).
+  - (* PAcqLock *)
+    destruct (holder_pc s t th i I Ht) as [it [Hi [Li [Si Ri]]]]. { rewrite Hpc; simpl. rewrite Nat.eqb_refl; auto. }
+    rewrite (with_item_ok _ _ _ _ Hi Li) in E. destruct (i_mtx it).
+    + destruct n; inversion E; subst; simpl.
+      * fr I Ht Hpc (th_pc th (PAcqSlow i ok y cd)).
+      * fr I Ht Hpc (th_pc th (PAcqLock i ok y cd n)).
+    + inversion E; subst; simpl. fr I Ht Hpc (th_pc th (PAcqCheck i ok y cd)). ieqv Hi.
+  - (* PAcqSlow *)
+    destruct (holder_pc s t th i I Ht) as [it [Hi [Li [Si Ri]]]]. { rewrite Hpc; simpl. rewrite Nat.eqb_refl; auto. }
+    rewrite (with_item_ok _ _ _ _ Hi Li) in E. destruct (i_mtx it); inversion E; subst; simpl.
+    + fr I Ht Hpc (th_pc th (PAcqSleepM i ok y cd)). ieqv Hi.
+    + fr I Ht Hpc (th_pc th (PAcqCheck i ok y cd)). ieqv Hi.
+  - (* PAcqSleepM *)
+    destruct (holder_pc s t th i I Ht) as [it [Hi [Li [Si Ri]]]]. { rewrite Hpc; simpl. rewrite Nat.eqb_refl; auto. }
+    rewrite (with_item_ok _ _ _ _ Hi Li) in E. destruct (i_mtx it); [|discriminate].
+    destruct (Nat.eqb t0 t); [|discriminate]. inversion E; subst; simpl.
+    fr I Ht Hpc (th_pc th (PAcqCheck i ok y cd)).
+  - (* PAcqCheck *)
+    destruct (holder_pc s t th i I Ht) as [it [Hi [Li [Si Ri]]]]. { rewrite Hpc; simpl. rewrite Nat.eqb_refl; auto. }
+    rewrite (with_item_ok _ _ _ _ Hi Li) in E. destruct (i_obj it).
+    + inversion E; subst; simpl. fr I Ht Hpc (th_pc th (PAcqUnlock i)).
+    + destruct (i_failure it <=? sat_sub (s_now s) cd); inversion E; subst; simpl.
+      * fr I Ht Hpc (th_pc th (PAcqCtor i ok y)).
+      * fr I Ht Hpc (th_pc th (PAcqUnlock i)).
+  - (* PAcqCtor *)
+    destruct y.
+    + destruct (holder_pc s t th i I Ht) as [it [Hi [Li [Si Ri]]]]. { rewrite Hpc; simpl. rewrite Nat.eqb_refl; auto. }
+      rewrite (with_item_ok _ _ _ _ Hi Li) in E. destruct ok; inversion E; subst; simpl.
+      * fr I Ht Hpc (th_pc th (PAcqUnlock i)). ieqv Hi.
+      * fr I Ht Hpc (th_pc th (PAcqUnlock i)). ieqv Hi.
+    + inversion E; subst; simpl. fr I Ht Hpc (th_pc th (PAcqCtor i ok y)).
+  - (* PAcqUnlock *)
+    destruct (holder_pc s t th i I Ht) as [it [Hi [Li [Si Ri]]]]. { rewrite Hpc; simpl. rewrite Nat.eqb_refl; auto. }
+    rewrite (with_item_ok _ _ _ _ Hi Li) in E. destruct (i_mq it); inversion E; subst; simpl.
+    + fr I Ht Hpc (th_pc th (PAcqRead i)). ieqv Hi.
+    + fr I Ht Hpc (th_pc th (PAcqRead i)). ieqv Hi.
+  - (* PAcqRead *)
+    destruct (holder_pc s t th i I Ht) as [it [Hi [Li [Si Ri]]]]. { rewrite Hpc; simpl. rewrite Nat.eqb_refl; auto. }
+    rewrite (with_item_ok _ _ _ _ Hi Li) in E. destruct (i_obj it); inversion E; subst; simpl.
+    + fr I Ht Hpc (th_pc th (PExp (KAcq (Some i)))).
+    + fr I Ht Hpc (th_pc th (PRel1 i false true true)).
+Qed.
+
+(* ref_acquire takes its reference on an item of the set that has no recycler pending *)
+Lemma acq_inv s t th i it k ok y cd :
+  Inv s -> nth_error (s_thr s) t = Some th -> t_pc th = PAcqFind k ok y cd ->
+  nth_error (s_items s) i = Some it -> i_live it = true -> In i (s_set s) -> i_recycle it = None ->
+  Inv (set_pc (set_item (set_list s (remove_id i (s_list s))) i (it_ref it (i_ref it + 1))) t th (PAcqLock i ok y cd MUTEX_RETRIES)).
+Proof.
+  intros I Ht Hpc Hi Li Si Ci.
+  set (th' := th_pc th (PAcqLock i ok y cd MUTEX_RETRIES)).
+  set (it' := it_ref it (i_ref it + 1)).
+  assert (G1 : forall j, j <> i -> holds th' j = holds th j).
+  { intros j Hj. unfold holds, handles_on. rewrite Hpc. simpl. destruct (Nat.eqb_spec j i); congruence. }
+  assert (G2 : Z.of_nat (holds th' i) - Z.of_nat (holds th i) = i_ref it' - i_ref it).
+  { unfold holds, handles_on. rewrite Hpc. simpl. rewrite Nat.eqb_refl. lia. }
+  assert (G3 : forall j, pc_owns (t_pc th') j = pc_owns (t_pc th) j) by (intros j; rewrite Hpc; reflexivity).
+  assert (G4 : NoDup (remove_id i (s_list s))) by (apply nodup_remove_id; apply I).
+  assert (G5 : forall j, In j (remove_id i (s_list s)) -> (In j (s_list s) /\ j <> i) \/ (j = i /\ i_ref it' = 0 /\ i_recycle it' = None)).
+  { intros j Hj. apply in_remove_id in Hj. left. split; [tauto|]. intros ->. tauto. }
+  assert (G6 : forall j, pc_recycler (t_pc th') j = true ->
+     (pc_recycler (t_pc th) j = true /\ (j = i -> i_recycle it' = i_recycle it)) \/ (j = i /\ i_recycle it' = Some t)).
+  { intros j Hj. discriminate. }
+  assert (G7 : forall t' th0, t' <> t -> nth_error (s_thr s) t' = Some th0 -> pc_recycler (t_pc th0) i = true -> i_recycle it' = i_recycle it) by reflexivity.
+  assert (G8 : forall j ds, t_pc th' = PRelErase j ds -> (t_pc th = PRelErase j ds /\ j <> i) \/ (j = i /\ i_ref it' = 0)).
+  { intros j ds Hq. discriminate. }
+  assert (G9 : forall t' th0 ds, t' <> t -> nth_error (s_thr s) t' = Some th0 -> t_pc th0 = PRelErase i ds -> i_ref it' = 0).
+  { intros t' th0 ds Hne Hn Hp. destruct (inv_recycler s I t' th0 i Hn) as [x [Hx [_ [Cx _]]]].
+    { rewrite Hp. simpl. apply Nat.eqb_refl. } congruence. }
+  assert (G10 : sem_ok it').
+  { pose proof (inv_sem s I i it Hi Li) as [S0 S1]. unfold sem_ok. simpl. split; auto.
+    intros H1. destruct (S1 H1) as [_ ?]. congruence. }
+  match goal with |- Inv ?x => refine (gen_inv s x t th th' i it it' I Ht _ Hi _ _ Li Li Si _ _ G1 G2 G3 G4 G5 G6 G7 G8 G9 G10) end; try reflexivity; apply I.
+Qed.
+
+Lemma step_PAcqFind s t th r k ok y cd : Inv s -> nth_error (s_thr s) t = Some th -> t_pc th = PAcqFind k ok y cd ->
+  step s t = Some r -> Inv (r_st r).
+Proof.
+  intros I Ht Hpc E. unfold step, get_thr in E. rewrite Ht, Hpc in E.
+  destruct (find_key (s_items s) (s_set s) k) as [i|] eqn:F.
+  - destruct (find_key_some _ _ _ _ F) as [Si [it [Hi Ki]]].
+    destruct (inv_set_live s I i Si) as [it0 [Hi0 Li]]. assert (it0 = it) by congruence. subst it0.
+    cbv beta iota zeta in E.
+    rewrite (with_item_ok (set_list s (remove_id i (s_list s))) i _ it Hi Li) in E. destruct (i_recycle it) eqn:Ci.
+    + injection E as <-; simpl. fr I Ht Hpc (th_pc th (PAcqParked k ok y cd)).
+      * intros j Hj. apply in_remove_id in Hj. tauto.
+      * apply nodup_remove_id. apply I.
+    + injection E as <-; simpl. apply (acq_inv s t th i it k ok y cd); auto.
+  - pose proof (alloc_inv s k I F) as I1.
+    set (s1 := set_set (set_items s (s_items s ++ [new_item k])) (s_set s ++ [length (s_items s)])) in *.
+    assert (Hi : nth_error (s_items s1) (length (s_items s)) = Some (new_item k)) by (simpl; apply nth_app_new).
+    cbv beta iota zeta in E. fold s1 in E.
+    rewrite (with_item_ok (set_list s1 (remove_id (length (s_items s)) (s_list s1))) _ _ _ Hi eq_refl) in E.
+    simpl in E. injection E as <-; simpl.
+    apply (acq_inv s1 t th (length (s_items s)) (new_item k) k ok y cd); auto.
+    simpl. apply in_or_app. right. left. auto.
+Qed.
+
+(* ref_release drops its reference (:128-142) *)
+Lemma rel1_inv s t th i it it' p' l' rc ds inacq :
+  Inv s -> nth_error (s_thr s) t = Some th -> t_pc th = PRel1 i rc ds inacq ->
+  nth_error (s_items s) i = Some it -> i_live it = true -> In i (s_set s) -> 0 < i_ref it ->
+  i_key it' = i_key it -> i_live it' = true -> i_ref it' = i_ref it - 1 ->
+  (i_recycle it' = i_recycle it \/ i_recycle it = None) ->
+  (forall j, pc_holds p' j = O) -> (forall j, pc_owns p' j = O) -> (forall j ds', p' <> PRelErase j ds') ->
+  (forall j, pc_recycler p' j = true -> j = i /\ i_recycle it' = Some t) ->
+  (l' = s_list s \/ (l' = remove_id i (s_list s) ++ [i] /\ i_ref it' = 0 /\ i_recycle it' = None)) ->
+  sem_ok it' ->
+  Inv (set_pc (set_list (set_item s i it') l') t th p').
+Proof.
+  intros I Ht Hpc Hi Li Si Ri Hk Hl Hr Hc Hh Ho He Hrec Hlist Hsem.
+  assert (NL : ~ In i (s_list s)).
+  { intros H. destruct (inv_list s I i H) as [_ [x [Hx [Rx _]]]]. assert (x = it) by congruence. subst. lia. }
+  set (th' := th_pc th p').
+  assert (G1 : forall j, j <> i -> holds th' j = holds th j).
+  { intros j Hj. unfold holds, handles_on. rewrite Hpc. simpl. rewrite Hh. destruct (Nat.eqb_spec j i); congruence. }
+  assert (G2 : Z.of_nat (holds th' i) - Z.of_nat (holds th i) = i_ref it' - i_ref it).
+  { unfold holds, handles_on. rewrite Hpc. simpl. rewrite Hh, Nat.eqb_refl. lia. }
+  assert (G3 : forall j, pc_owns (t_pc th') j = pc_owns (t_pc th) j) by (intros j; rewrite Hpc; simpl; apply Ho).
+  assert (G4 : NoDup l').
+  { destruct Hlist as [->|[-> _]]. { apply I. } apply nodup_snoc. { apply nodup_remove_id. apply I. }
+    intros H. apply in_remove_id in H. tauto. }
+  assert (G5 : forall j, In j l' -> (In j (s_list s) /\ j <> i) \/ (j = i /\ i_ref it' = 0 /\ i_recycle it' = None)).
+  { intros j Hj. destruct Hlist as [->|[-> [R0 C0]]].
+    + left. split; auto. intros ->. tauto.
+    + apply in_app_or in Hj. destruct Hj as [Hj|[<-|[]]].
+      * apply in_remove_id in Hj. left. split; [tauto|]. intros ->. tauto.
+      * right. auto. }
+  assert (G6 : forall j, pc_recycler (t_pc th') j = true ->
+     (pc_recycler (t_pc th) j = true /\ (j = i -> i_recycle it' = i_recycle it)) \/ (j = i /\ i_recycle it' = Some t)).
+  { intros j Hj. right. apply Hrec; auto. }
+  assert (G7 : forall t' th0, t' <> t -> nth_error (s_thr s) t' = Some th0 -> pc_recycler (t_pc th0) i = true -> i_recycle it' = i_recycle it).
+  { intros t' th0 Hne Hn Hp. destruct Hc as [Hc|Hc]; auto.
+    destruct (inv_recycler s I t' th0 i Hn Hp) as [x [Hx [_ [Cx _]]]]. congruence. }
+  assert (G8 : forall j ds, t_pc th' = PRelErase j ds -> (t_pc th = PRelErase j ds /\ j <> i) \/ (j = i /\ i_ref it' = 0)).
+  { intros j ds' Hp. exfalso. eapply He; eauto. }
+  assert (G9 : forall t' th0 ds, t' <> t -> nth_error (s_thr s) t' = Some th0 -> t_pc th0 = PRelErase i ds -> i_ref it' = 0).
+  { intros t' th0 ds' Hne Hn Hp. pose proof (inv_erase_ref s I t' th0 i ds' Hn Hp) as Z. unfold refz in Z. rewrite Hi in Z. lia. }
+  match goal with |- Inv ?x => refine (gen_inv s x t th th' i it it' I Ht _ Hi _ Hk Hl Li Si _ _ G1 G2 G3 G4 G5 G6 G7 G8 G9 Hsem) end; try reflexivity; apply I.
+Qed.
+
+Lemma step_PRel1 s t th r i rc ds inacq : Inv s -> nth_error (s_thr s) t = Some th -> t_pc th = PRel1 i rc ds inacq ->
+  step s t = Some r -> Inv (r_st r).
+Proof.
+  intros I Ht Hpc E. unfold step, get_thr in E. rewrite Ht, Hpc in E.
+  destruct (holder_pc s t th i I Ht) as [it [Hi [Li [Si Ri]]]]. { rewrite Hpc; simpl. rewrite Nat.eqb_refl; auto. }
+  rewrite (with_item_ok _ _ _ _ Hi Li) in E.
+  pose proof (inv_sem s I i it Hi Li) as [S0 S1].
+  assert (S2 : i_sem it < 1). { destruct (Z.lt_ge_cases (i_sem it) 1); auto. destruct S1; lia. }
+  destruct (i_recycle it) as [r0|] eqn:Ci.
+  - (* a recycler is already pending: this release is a plain one *)
+    cbv beta iota zeta in E. simpl in E. destruct (i_ref it - 1 =? 0) eqn:Ez.
+    + apply Z.eqb_eq in Ez. rewrite Ci in E. injection E as <-. simpl.
+      apply (rel1_inv s t th i it _ (PExp (KRel None inacq)) (s_list s) rc ds inacq I Ht Hpc Hi Li Si Ri); simpl; auto; try discriminate.
+      unfold sem_ok; simpl. rewrite Ci. split; [lia|]. intros _. split; [lia|discriminate].
+    + apply Z.eqb_neq in Ez. injection E as <-. simpl.
+      replace (set_pc (set_item s i (it_ref it (i_ref it - 1))) t th (PExp (KRel None inacq)))
+        with (set_pc (set_list (set_item s i (it_ref it (i_ref it - 1))) (s_list s)) t th (PExp (KRel None inacq))) by reflexivity.
+      apply (rel1_inv s t th i it _ (PExp (KRel None inacq)) (s_list s) rc ds inacq I Ht Hpc Hi Li Si Ri); simpl; auto; try discriminate.
+      unfold sem_ok; simpl. split; [lia|]. intros; lia.
+  - destruct rc; cbv beta iota zeta in E; simpl in E; destruct (i_ref it - 1 =? 0) eqn:Ez.
+    + (* recycling release, last reference: signal own semaphore *)
+      apply Z.eqb_eq in Ez. injection E as <-. simpl.
+      apply (rel1_inv s t th i it _ (PRelSem i ds) (s_list s) true ds inacq I Ht Hpc Hi Li Si Ri); simpl; auto; try discriminate.
+      * intros j Hj. apply Nat.eqb_eq in Hj. auto.
+      * unfold sem_ok; simpl. split; [lia|]. intros _. split; [lia|discriminate].
+    + apply Z.eqb_neq in Ez. injection E as <-. simpl.
+      replace (set_pc (set_item s i (it_ref (it_recycle it (Some t)) (i_ref it - 1))) t th (PRelSem i ds))
+        with (set_pc (set_list (set_item s i (it_ref (it_recycle it (Some t)) (i_ref it - 1))) (s_list s)) t th (PRelSem i ds)) by reflexivity.
+      apply (rel1_inv s t th i it _ (PRelSem i ds) (s_list s) true ds inacq I Ht Hpc Hi Li Si Ri); simpl; auto; try discriminate.
+      * intros j Hj. apply Nat.eqb_eq in Hj. auto.
+      * unfold sem_ok; simpl. split; [lia|]. intros; lia.
+    + (* plain release, last reference: _failure = 0; enqueue *)
+      apply Z.eqb_eq in Ez. rewrite Ci in E. injection E as <-. simpl.
+      apply (rel1_inv s t th i it _ (PExp (KRel None inacq)) (remove_id i (s_list s) ++ [i]) false ds inacq I Ht Hpc Hi Li Si Ri); simpl; auto; try discriminate.
+      unfold sem_ok; simpl. split; [lia|]. intros; lia.
+    + apply Z.eqb_neq in Ez. injection E as <-. simpl.
+      replace (set_pc (set_item s i (it_ref it (i_ref it - 1))) t th (PExp (KRel None inacq)))
+        with (set_pc (set_list (set_item s i (it_ref it (i_ref it - 1))) (s_list s)) t th (PExp (KRel None inacq))) by reflexivity.
+      apply (rel1_inv s t th i it _ (PExp (KRel None inacq)) (s_list s) false ds inacq I Ht Hpc Hi Li Si Ri); simpl; auto; try discriminate.
+      unfold sem_ok; simpl. split; [lia|]. intros; lia.
+Qed.
+
+Lemma recycler_pc s t th i : Inv s -> nth_error (s_thr s) t = Some th -> pc_recycler (t_pc th) i = true ->
+  exists it, nth_error (s_items s) i = Some it /\ i_live it = true /\ i_recycle it = Some t /\ In i (s_set s).
+Proof. intros I Ht H. apply (inv_recycler s I t th i Ht H). Qed.
+
+Lemma step_PRelSem s t th r i ds : Inv s -> nth_error (s_thr s) t = Some th -> t_pc th = PRelSem i ds ->
+  step s t = Some r -> Inv (r_st r).
+Proof.
+  intros I Ht Hpc E. unfold step, get_thr in E. rewrite Ht, Hpc in E.
+  destruct (recycler_pc s t th i I Ht) as [it [Hi [Li [Ci Si]]]]. { rewrite Hpc; simpl. apply Nat.eqb_refl. }
+  rewrite (with_item_ok _ _ _ _ Hi Li) in E.
+  pose proof (inv_sem s I i it Hi Li) as [S0 S1].
+  destruct (1 <=? i_sem it) eqn:Es.
+  - apply Z.leb_le in Es. destruct (S1 Es) as [R0 _]. injection E as <-. simpl.
+    set (th' := th_pc th (PRelErase i ds)). set (it' := it_sem it (i_sem it - 1) false).
+    assert (NL : ~ In i (s_list s)).
+    { intros H. destruct (inv_list s I i H) as [_ [x [Hx [_ Cx]]]]. congruence. }
+    assert (G1 : forall j, j <> i -> holds th' j = holds th j) by (intros; unfold holds, handles_on; rewrite Hpc; reflexivity).
+    assert (G2 : Z.of_nat (holds th' i) - Z.of_nat (holds th i) = i_ref it' - i_ref it) by (unfold holds, handles_on; rewrite Hpc; simpl; lia).
+    assert (G3 : forall j, pc_owns (t_pc th') j = pc_owns (t_pc th) j) by (intros; rewrite Hpc; reflexivity).
+    assert (G5 : forall j, In j (s_list s) -> (In j (s_list s) /\ j <> i) \/ (j = i /\ i_ref it' = 0 /\ i_recycle it' = None)).
+    { intros j Hj. left. split; auto. intros ->. tauto. }
+    assert (G6 : forall j, pc_recycler (t_pc th') j = true ->
+       (pc_recycler (t_pc th) j = true /\ (j = i -> i_recycle it' = i_recycle it)) \/ (j = i /\ i_recycle it' = Some t)).
+    { intros j Hj. left. rewrite Hpc. simpl in *. auto. }
+    assert (G7 : forall t' th0, t' <> t -> nth_error (s_thr s) t' = Some th0 -> pc_recycler (t_pc th0) i = true -> i_recycle it' = i_recycle it) by reflexivity.
+    assert (G8 : forall j ds0, t_pc th' = PRelErase j ds0 -> (t_pc th = PRelErase j ds0 /\ j <> i) \/ (j = i /\ i_ref it' = 0)).
+    { intros j ds0 Hq. simpl in Hq. inversion Hq; subst. right. auto. }
+    assert (G9 : forall t' th0 ds0, t' <> t -> nth_error (s_thr s) t' = Some th0 -> t_pc th0 = PRelErase i ds0 -> i_ref it' = 0) by (intros; exact R0).
+    assert (G10 : sem_ok it').
+    { unfold sem_ok; simpl. split; [lia|]. intros. apply S1. lia. }
+    match goal with |- Inv ?x => refine (gen_inv s x t th th' i it it' I Ht _ Hi _ _ Li Li Si _ _ G1 G2 G3 (inv_list_nodup s I) G5 G6 G7 G8 G9 G10) end; try reflexivity; apply I.
+  - injection E as <-. simpl. fr I Ht Hpc (th_pc th (PRelSemSleep i ds)). ieqv Hi.
+Qed.
+
+Lemma delete_step_inv s s1 t th p' z it it0 :
+  Inv s -> nth_error (s_thr s) t = Some th ->
+  pc_owns (t_pc th) z = S (pc_owns p' z) -> (forall j, j <> z -> pc_owns p' j = pc_owns (t_pc th) j) ->
+  (forall j, pc_holds p' j = pc_holds (t_pc th) j) -> (forall j, pc_recycler p' j = false) ->
+  nth_error (s_items s) z = Some it ->
+  s_items s1 = s_items s -> s_set s1 = s_set s -> s_list s1 = s_list s -> s_thr s1 = s_thr s -> s_bad s1 = s_bad s ->
+  i_ref it0 = i_ref it -> i_key it0 = i_key it ->
+  Inv (set_pc (delete_item s1 t z it0) t th p').
+Proof.
+  intros I Ht O1 O2 H1 R1 Hz Q1 Q2 Q3 Q4 Q5 E1 E2.
+  destruct (delete_item_fields s1 t z it0) as [F1 [F2 [F3 [F4 F5]]]].
+  assert (A1 : forall j, holds (th_pc th p') j = holds th j) by (intros j; unfold holds, handles_on; simpl; rewrite H1; auto).
+  assert (A2 : s_thr (set_pc (delete_item s1 t z it0) t th p') = upd (s_thr s) t (th_pc th p')) by (change (upd (s_thr (delete_item s1 t z it0)) t (th_pc th p') = upd (s_thr s) t (th_pc th p')); rewrite F4, Q4; reflexivity).
+  assert (A3 : s_items (set_pc (delete_item s1 t z it0) t th p') = upd (s_items s) z (it_dead it0)) by (change (s_items (delete_item s1 t z it0) = upd (s_items s) z (it_dead it0)); rewrite F1, Q1; reflexivity).
+  assert (A4 : s_set (set_pc (delete_item s1 t z it0) t th p') = s_set s) by (change (s_set (delete_item s1 t z it0) = s_set s); rewrite F2, Q2; reflexivity).
+  assert (A5 : s_list (set_pc (delete_item s1 t z it0) t th p') = s_list s) by (change (s_list (delete_item s1 t z it0) = s_list s); rewrite F3, Q3; reflexivity).
+  assert (A6 : s_bad (set_pc (delete_item s1 t z it0) t th p') = s_bad s) by (change (s_bad (delete_item s1 t z it0) = s_bad s); rewrite F5, Q5; reflexivity).
+  exact (delete_inv s _ t th (th_pc th p') z it (it_dead it0) I Ht O1 O2 A1 R1 Hz A2 A3 eq_refl E1 E2 A4 A5 A6).
+Qed.
+
+Lemma step_rest s t th r : Inv s -> nth_error (s_thr s) t = Some th ->
+  match t_pc th with
+  | PRelSemSleep _ _ | PRelErase _ _ | PRelDelete _ _ | PRelNotify _ | PExp _ | PExpDel _ _ => True | _ => False end ->
+  step s t = Some r -> Inv (r_st r).
+Proof.
+  intros I Ht P E. unfold step, get_thr in E. rewrite Ht in E.
+  destruct (t_pc th) eqn:Hpc; try contradiction.
+  - (* PRelSemSleep *)
+    destruct (recycler_pc s t th i I Ht) as [it [Hi [Li [Ci Si]]]]. { rewrite Hpc; simpl. apply Nat.eqb_refl. }
+    rewrite (with_item_ok _ _ _ _ Hi Li) in E. destruct (i_semwait it); [discriminate|]. injection E as <-. simpl.
+    fr I Ht Hpc (th_pc th (PRelSem i destroy)).
+  - (* PRelErase *)
+    destruct (recycler_pc s t th i I Ht) as [it [Hi [Li [Ci Si]]]]. { rewrite Hpc; simpl. apply Nat.eqb_refl. }
+    rewrite (with_item_ok _ _ _ _ Hi Li) in E. injection E as <-. simpl.
+    eapply (erase_inv s _ t th (th_pc th (PRelDelete i destroy)) i destroy it I Ht Hpc Hi); reflexivity.
+  - (* PRelDelete *)
+    destruct (thr_owns_pos s t th i I Ht) as [it [Hi [Li [Ni [Oi Ri]]]]]. { rewrite Hpc; simpl. rewrite Nat.eqb_refl. lia. }
+    rewrite (with_item_ok _ _ _ _ Hi Li) in E.
+    assert (O1 : forall p', pc_owns p' i = O -> pc_owns (t_pc th) i = S (pc_owns p' i)) by (intros p' H; rewrite H, Hpc; simpl; rewrite Nat.eqb_refl; auto).
+    assert (O2 : forall j, j <> i -> O = pc_owns (t_pc th) j) by (intros j Hj; rewrite Hpc; simpl; destruct (Nat.eqb_spec j i); congruence).
+    assert (H1 : forall j, O = pc_holds (t_pc th) j) by (intros; rewrite Hpc; reflexivity).
+    destruct destroy; injection E as <-; simpl.
+    + apply (delete_step_inv s s t th (PRelNotify None) i it it I Ht); auto.
+    + apply (delete_step_inv s _ t th (PRelNotify _) i it (it_obj it None) I Ht); auto; destruct (i_obj it); reflexivity.
+  - (* PRelNotify *)
+    destruct (s_blockq s); injection E as <-; simpl.
+    + fr I Ht Hpc (th_pc th (PExp (KRel ret false))).
+    + eapply (frame s _ t th th I Ht); simpl; auto; try apply I; try apply items_eqv_refl.
+      symmetry. apply upd_id; auto.
+  - (* PExp *)
+    destruct (exp_split (s_items s) (s_now s) (s_numlimit s) (s_list s) (s_set s)) as [[zs l'] set'] eqn:Ex.
+    injection E as <-. simpl.
+    eapply (exp_inv s _ t th (th_pc th (PExpDel zs kt)) kt zs l' set' I Ht Hpc Ex); reflexivity.
+  - (* PExpDel *)
+    destruct zs as [|z zs'].
+    + unfold finish in E. destruct kt as [r0|ret [|]|].
+      * injection E as <-. simpl.
+        assert (HH : forall j, holds (mkThr PIdle (t_prog th) (S (t_idx th)) (t_h th ++ [(r0, false)])) j = holds th j).
+        { intros j. unfold holds. rewrite Hpc. rewrite !handles_on_eq. simpl t_h. rewrite handles_app. simpl.
+          destruct r0; simpl; lia. }
+        eapply (frame s _ t th _ I Ht);
+          [reflexivity | exact HH | intros; rewrite Hpc; reflexivity | intros; rewrite Hpc; reflexivity
+          | intros ? ? Hq; discriminate Hq | apply items_eqv_refl | reflexivity | auto | apply I | reflexivity].
+      * injection E as <-. simpl. fr I Ht Hpc (th_pc th (PExp (KAcq None))).
+      * injection E as <-. simpl. fr I Ht Hpc (mkThr PIdle (t_prog th) (S (t_idx th)) (t_h th)).
+      * injection E as <-. simpl. fr I Ht Hpc (mkThr PIdle (t_prog th) (S (t_idx th)) (t_h th)).
+    + destruct (thr_owns_pos s t th z I Ht) as [it [Hi [Li [Ni [Oi Ri]]]]].
+      { rewrite Hpc; simpl. destruct (Nat.eq_dec z z); [lia|congruence]. }
+      rewrite (with_item_ok _ _ _ _ Hi Li) in E. injection E as <-. simpl.
+      apply (delete_step_inv s s t th (PExpDel zs' kt) z it it I Ht); auto.
+      * rewrite Hpc; simpl. destruct (Nat.eq_dec z z); [auto|congruence].
+      * intros j Hj. rewrite Hpc; simpl. destruct (Nat.eq_dec z j); [congruence|auto].
+      * intros j. rewrite Hpc. simpl. destruct kt as [[?|]| |]; reflexivity.
+Qed.
+
+Theorem step_inv s t r : Inv s -> step s t = Some r -> Inv (r_st r).
+Proof.
+  intros I E. destruct (nth_error (s_thr s) t) as [th|] eqn:Ht.
+  - destruct (t_pc th) eqn:Hpc.
+    + eapply step_PIdle; eauto.
+    + eapply step_PAcqFind; eauto.
+    + eapply step_mutex; eauto. rewrite Hpc; exact Logic.I.
+    + eapply step_mutex; eauto. rewrite Hpc; exact Logic.I.
+    + eapply step_mutex; eauto. rewrite Hpc; exact Logic.I.
+    + eapply step_mutex; eauto. rewrite Hpc; exact Logic.I.
+    + eapply step_mutex; eauto. rewrite Hpc; exact Logic.I.
+    + eapply step_mutex; eauto. rewrite Hpc; exact Logic.I.
+    + eapply step_mutex; eauto. rewrite Hpc; exact Logic.I.
+    + eapply step_mutex; eauto. rewrite Hpc; exact Logic.I.
+    + eapply step_PRel1; eauto.
+    + eapply step_PRelSem; eauto.
+    + eapply step_rest; eauto. rewrite Hpc; exact Logic.I.
+    + eapply step_rest; eauto. rewrite Hpc; exact Logic.I.
+    + eapply step_rest; eauto. rewrite Hpc; exact Logic.I.
+    + eapply step_rest; eauto. rewrite Hpc; exact Logic.I.
+    + eapply step_rest; eauto. rewrite Hpc; exact Logic.I.
+    + eapply step_rest; eauto. rewrite Hpc; exact Logic.I.
+  - unfold step, get_thr in E. rewrite Ht in E. discriminate.
+Qed.
+
+(* ================================================================ reachability *)
+Inductive reachable (s0 : state) : state -> Prop :=
+| reach_init : reachable s0 s0
+| reach_step s t r : reachable s0 s -> step s t = Some r -> reachable s0 (r_st r).
+
+Lemma sumf_zero_all f l : (forall th, In th l -> f th = O) -> sumf f l = O.
+Proof. induction l; simpl; intros H; auto. rewrite (H a), IHl; auto. Qed.
+
+Lemma init_inv now life lim progs : Inv (init_state now life lim progs).
+Proof.
+  assert (Z0 : forall f, (forall p, f (init_thr p) = O) -> sumf f (map init_thr progs) = O).
+  { intros f H. apply sumf_zero_all. intros th Hin. apply in_map_iff in Hin. destruct Hin as [p [<- _]]. apply H. }
+  constructor; simpl.
+  - reflexivity.
+  - intros i. unfold total_holds, refz; simpl. rewrite Z0; [|reflexivity]. destruct i; reflexivity.
+  - intros i H; contradiction.
+  - intros i j it jt H; contradiction.
+  - constructor.
+  - intros i H; contradiction.
+  - constructor.
+  - intros i it H. destruct i; discriminate.
+  - intros i _. unfold total_owns; simpl. apply Z0. reflexivity.
+  - intros t th i Hn Hp. apply nth_error_In in Hn. apply in_map_iff in Hn. destruct Hn as [p [<- _]]. discriminate.
+  - intros t th i ds Hn Hp. apply nth_error_In in Hn. apply in_map_iff in Hn. destruct Hn as [p [<- _]]. discriminate.
+  - intros i it H. destruct i; discriminate.
+Qed.
+
+Theorem reachable_inv now life lim progs s : reachable (init_state now life lim progs) s -> Inv s.
+Proof. induction 1. - apply init_inv. - eapply step_inv; eauto. Qed.
+
+(* the cooperative single-vCPU run is a run of the same transition system *)
+Lemma coop_run_reachable s0 : forall fuel s rq, reachable s0 s -> reachable s0 (fst (fst (coop_run fuel s rq))).
+Proof.
+  induction fuel; simpl; intros s rq R; auto.
+  destruct rq as [|t rest]; simpl; auto.
+  destruct (step s t) as [r|] eqn:E; auto.
+  destruct (r_eff r); apply IHfuel; eapply reach_step; eauto.
+Qed.
+
+(* ================================================================ the property's clauses *)
+Section Clauses.
+Variables (now life lim : Z) (progs : list (list op)).
+Let s0 := init_state now life lim progs.
+
+(* a thread "holds a reference to item i": it has a handle on i whose release has not been called, or it is
+   inside ref_acquire after refcnt++ (constructing / waiting for the constructor), or inside ref_release before refcnt-- *)
+Definition holder (s : state) (t : tid) (i : iid) : Prop :=
+  exists th, nth_error (s_thr s) t = Some th /\ (0 < holds th i)%nat.
+
+(* no access to a deleted Item ever happens *)
+Lemma no_use_after_free s : reachable s0 s -> s_bad s = false.
+Proof. intros R. apply (reachable_inv _ _ _ _ _ R). Qed.
+
+(* _refcnt is exactly the number of holders *)
+Lemma refcount_exact s i it : reachable s0 s -> nth_error (s_items s) i = Some it -> i_ref it = Z.of_nat (total_holds s i).
+Proof. intros R H. pose proof (inv_ref s (reachable_inv _ _ _ _ _ R) i) as E. unfold refz in E. rewrite H in E. lia. Qed.
+
+(* all holders of one key share one Item (hence one object) *)
+Lemma one_object_per_key s t1 t2 i1 i2 it1 it2 : reachable s0 s -> holder s t1 i1 -> holder s t2 i2 ->
+  nth_error (s_items s) i1 = Some it1 -> nth_error (s_items s) i2 = Some it2 -> i_key it1 = i_key it2 -> i1 = i2.
+Proof.
+  intros R [th1 [H1 P1]] [th2 [H2 P2]] N1 N2 K. pose proof (reachable_inv _ _ _ _ _ R) as I.
+  destruct (thr_holds_pos s t1 th1 i1 I H1 P1) as [x1 [X1 [_ [S1 _]]]].
+  destruct (thr_holds_pos s t2 th2 i2 I H2 P2) as [x2 [X2 [_ [S2 _]]]].
+  eapply (inv_set_key s I i1 i2 it1 it2); eauto.
+Qed.
+
+(* an item with a holder is alive, indexed, NOT in the expiry list, and no thread is in a position to delete it
+   (the two delete transitions PRelDelete / PExpDel need pc_owns > 0) *)
+Lemma no_destroy_while_borrowed s t i : reachable s0 s -> holder s t i ->
+  (exists it, nth_error (s_items s) i = Some it /\ i_live it = true /\ 0 < i_ref it) /\
+  In i (s_set s) /\ ~ In i (s_list s) /\
+  (forall t' th', nth_error (s_thr s) t' = Some th' -> pc_owns (t_pc th') i = O).
+Proof.
+  intros R [th [H P]]. pose proof (reachable_inv _ _ _ _ _ R) as I.
+  destruct (thr_holds_pos s t th i I H P) as [it [Hi [Li [Si Ri]]]].
+  split; [eauto|]. split; auto. split.
+  - intros HL. destruct (inv_list s I i HL) as [_ [x [Hx [Rx _]]]]. assert (x = it) by congruence. subst. lia.
+  - intros t' th' Hn. pose proof (inv_own s I i it Hi) as O. rewrite Li in O. destruct O as [[_ O]|[O _]]; [|tauto].
+    eapply (sumf_zero (fun th => pc_owns (t_pc th) i)); eauto.
+Qed.
+
+(* whatever is unlinked by expire() (and is waiting for its delete) has no holder and no recycler *)
+Lemma expire_only_unreferenced s t th zs kt z : reachable s0 s -> nth_error (s_thr s) t = Some th ->
+  t_pc th = PExpDel zs kt -> In z zs ->
+  total_holds s z = O /\ exists it, nth_error (s_items s) z = Some it /\ i_live it = true /\ i_ref it = 0 /\ ~ In z (s_set s).
+Proof.
+  intros R H P Hz. pose proof (reachable_inv _ _ _ _ _ R) as I.
+  destruct (thr_owns_pos s t th z I H) as [it [Hi [Li [Ni [Oi Ri]]]]].
+  { rewrite P. simpl. apply count_occ_In. auto. }
+  split. { pose proof (inv_ref s I z) as E. unfold refz in E. rewrite Hi in E. lia. }
+  exists it. auto.
+Qed.
+
+(* a recycling release that has got past sem.wait (it is about to unlink / delete / hand over the object)
+   is alone: every other holder has released, and nobody can acquire the item any more *)
+Lemma recycle_waits_all s t th i ds : reachable s0 s -> nth_error (s_thr s) t = Some th ->
+  (t_pc th = PRelErase i ds \/ t_pc th = PRelDelete i ds) -> total_holds s i = O.
+Proof.
+  intros R H [P|P]; pose proof (reachable_inv _ _ _ _ _ R) as I.
+  - pose proof (inv_erase_ref s I t th i ds H P) as E. pose proof (inv_ref s I i). lia.
+  - destruct (thr_owns_pos s t th i I H) as [it [Hi [Li [Ni [Oi Ri]]]]].
+    { rewrite P. simpl. rewrite Nat.eqb_refl. lia. }
+    pose proof (inv_ref s I i) as E. unfold refz in E. rewrite Hi in E. lia.
+Qed.
+
+(* while a recycler is pending on an item, it is the only one and the item stays indexed (so new acquirers find it
+   and park on `blocker` instead of creating a second object for the key) *)
+Lemma recycler_unique s t1 t2 th1 th2 i : reachable s0 s ->
+  nth_error (s_thr s) t1 = Some th1 -> nth_error (s_thr s) t2 = Some th2 ->
+  pc_recycler (t_pc th1) i = true -> pc_recycler (t_pc th2) i = true -> t1 = t2.
+Proof.
+  intros R H1 H2 P1 P2. pose proof (reachable_inv _ _ _ _ _ R) as I.
+  destruct (inv_recycler s I t1 th1 i H1 P1) as [x [Hx [_ [Cx _]]]].
+  destruct (inv_recycler s I t2 th2 i H2 P2) as [y [Hy [_ [Cy _]]]]. congruence.
+Qed.
+End Clauses.
+
+(* ---- the hypotheses of the clauses are met by concrete reachable states ---- *)
+Definition ex_progs : list (list op) :=
+  [[OpAcquire 7%nat true 1%nat 0; OpYield; OpRelease 0%nat true false]; [OpAcquire 7%nat true 0%nat 0; OpRelease 0%nat false true]].
+Definition ex_state (fuel : nat) : state := fst (fst (coop_run fuel (init_state 1000 50 MAX64 ex_progs) [0%nat; 1%nat])).
+Lemma ex_reachable fuel : reachable (init_state 1000 50 MAX64 ex_progs) (ex_state fuel).
+Proof. apply coop_run_reachable. constructor. Qed.
+(* after 14 steps both threads hold item 0 (thread 1 is waiting for thread 0's constructor) *)
+Example ex_two_holders : holder (ex_state 14) 0%nat 0%nat /\ holder (ex_state 14) 1%nat 0%nat.
+Proof. split; eexists; (split; [vm_compute; reflexivity | vm_compute; lia]). Qed.
+(* later thread 0 is the pending recycler of item 0 *)
+Example ex_recycler : exists fuel th ds, nth_error (s_thr (ex_state fuel)) 0%nat = Some th /\ t_pc th = PRelErase 0%nat ds.
+Proof. exists 28%nat. vm_compute. eexists; eexists; split; reflexivity. Qed.
